@@ -147,7 +147,7 @@ fn wrap_pi(x: f64) -> f64 {
 }
 
 /// reference wire index from the snapshot tables
-fn ref_wire(board: &str, ch: u8) -> usize {
+pub fn ref_wire(board: &str, ch: u8) -> usize {
     let (_, p1, p2) = PREAMPS_2941.iter().find(|x| x.0 == board).unwrap();
     let m = INV_CHANNELS_2724[ch as usize];
     if m < 16 { p1 * 16 + m } else { p2 * 16 + (m - 16) }
